@@ -83,6 +83,102 @@ def cases(rng, tier):
     return cs
 
 
+# ---------------------------------------------------------------- system level: poison, then probe
+import engine
+import sysprop as S
+import sysrun
+
+
+class Poison:
+    """a hostile byte stream at some FSM state, then DeletePeer/AddPeer, then a fresh session must
+    establish on the same server and Close must return"""
+    no_model = True
+
+    def __init__(self, sid, tag, direction, prefix, poison, chunks=None, **kw):
+        self.sid, self.tag, self.direction, self.prefix, self.poison, self.chunks, self.kw = sid, tag, direction, prefix, poison, chunks, kw
+        self.remote_id = 0x0A000002
+
+    def scenario(self):
+        c = "c1"
+        st = [["dial", c]] if self.direction == "in" else [["accept", c, 3000]]
+        st += [["recv", c, 1, 2000]]
+        for m in self.prefix:
+            st += [["send", c, m.hex(), 0]]
+        st += [["sleep", 10], ["send", c, self.poison.hex(), self.chunks or 0], ["sleep", 250],
+               ["api", "delete", 3000], ["fullclose", c], ["sleep", 10], ["drain"], ["api", "add"], ["sleep", 20]]
+        p = "c2"
+        st += ([["dial", p]] if self.direction == "in" else [["accept", p, 3000]])
+        st += [["recv", p, 1, 2000], ["send", p, S.frame(S.OPEN, S.open_body()).hex(), 0], ["send", p, S.frame(S.KEEPALIVE).hex(), 0],
+               ["recv", p, 2, 1500], ["sleep", 40]]
+        sc = {"id": self.sid, "local_as": 65001, "remote_as": 65000, "local_id": 0x0A000001, "hold": 90,
+              "passive": self.direction == "in", "idle_hold_ms": 50, "connect_retry_ms": 400, "caps": [], "on_open": None,
+              "handler": [], "est_writes": [], "steps": st, "first_only": True}
+        sc.update(self.kw)
+        return sc
+
+    def model_case(self):
+        return None
+
+    def check(self, r):
+        bad = []
+        for a in r["api"] or []:
+            if a["err"] == "TIMEOUT":
+                bad.append("%s did not return after the hostile input (wedged)" % a["name"])
+        # the probe session: established after the re-add
+        t_add = max([a["at"] for a in r["api"] if a["name"] == "add"] + [0])
+        est_after = [cb for cb in r["cbs"] if cb["name"] == "OnEstablished" and cb["ph"] == "enter" and cb["at"] >= t_add]
+        if not est_after and not bad:
+            bad.append("after the hostile input a fresh session with the re-added peer did not establish")
+        return bad
+
+
+def poison_items(rng, tier):
+    out = []
+    sid = 0
+    OPENM = S.frame(S.OPEN, S.open_body())
+    KAM = S.frame(S.KEEPALIVE)
+    UPDM = S.frame(S.UPDATE, b"\x00\x00\x00\x00")
+    prefixes = {"openSent": [], "openConfirm": [OPENM], "established": [OPENM, KAM]}
+    reps = 1 if tier == "quick" else 5
+    for _ in range(reps):
+        for direction in ("in", "out"):
+            for state, pre in prefixes.items():
+                hostile = [("random", gen.rbytes(rng, rng.randint(1, 200))),
+                           ("mutated-open", gen.mutate(rng, OPENM, 3)),
+                           ("mutated-update", gen.mutate(rng, S.frame(S.UPDATE, gen.r_update_body(rng)[0][:4000]), 3)),
+                           ("huge-length", S.frame(2, b"", length=65535) + gen.rbytes(rng, 50)),
+                           ("truncated", UPDM[:rng.randint(1, 22)]),
+                           ("flood-keepalive", KAM * 300),
+                           ("partial-then-silence", S.frame(2, gen.rbytes(rng, 10), length=4096))]
+                for name, h in hostile:
+                    out.append(Poison(sid, "poison.%s.%s.%s" % (state, name, direction), direction, pre, h))
+                    sid += 1
+                # a decode error right behind a message that makes the FSM leave its state, while the
+                # FSM is busy in a plugin callback
+                if state == "established":
+                    out.append(Poison(sid, "poison.established.error-behind-handler-notification." + direction, direction, pre,
+                                      UPDM + S.frame(9), handler=[[3, 1, ""]], handler_delay_ms=120))
+                    sid += 1
+                    out.append(Poison(sid, "poison.established.error-behind-notification." + direction, direction, pre,
+                                      S.frame(S.NOTIF, S.notif_body(6, 2)) + S.frame(9), handler_delay_ms=0))
+                    sid += 1
+                if state == "openSent":
+                    out.append(Poison(sid, "poison.openSent.error-behind-open-plugin-notification." + direction, direction, pre,
+                                      OPENM + S.frame(9), on_open=[2, 0, ""], on_open_delay_ms=120))
+                    sid += 1
+    return out
+
+
+def sys_part(tier, rng, rep, replay):
+    cov = sysrun.run_convs(PID, poison_items(rng, tier), rep, extra_check=lambda c, e, o, r: c.check(r), par=24)
+    cov["rule"] = ("poison then probe: hostile streams (random, mutated OPEN/UPDATE, length 65535, truncation, 300 back-to-back "
+                   "KEEPALIVEs, partial message then silence, a decode error right behind a state-leaving message while the FSM "
+                   "is inside a plugin callback) at OpenSent/OpenConfirm/Established on both directions; then DeletePeer must "
+                   "return, AddPeer, and a fresh session must establish; Close must return; a crash of the server process is "
+                   "isolated by bisection and reported with the script")
+    return cov
+
+
 def main(tier, seed, replay=None):
     import sys
-    return fnprop.run(sys.modules[__name__], tier, seed, replay)
+    return engine.run_property(sys.modules[__name__], tier, seed, replay)
